@@ -76,6 +76,15 @@ def cases(ctx):
         for ph in grid:
             if mine():
                 yield {"kind": "prep", "theta": th, "phi": ph}
+    # angles a computation leaves next to zero or to a full turn (0.3 - 0.1 - 0.2 is -2.8e-17)
+    tiny = [0.3 - 0.1 - 0.2, -1e-20, -0.0, 1e-17, 2 * math.pi - 1e-15, -2 * math.pi, 4 * math.pi + 1e-16]
+    for th in tiny:
+        for ph in (0.0, tiny[0], 1.0):
+            if mine():
+                yield {"kind": "prep", "theta": th, "phi": ph}
+    for ph in tiny:
+        if mine():
+            yield {"kind": "prep", "theta": 1.0, "phi": ph}
     for _ in range(ctx.n(30, 10000) * ctx.nshards):
         if mine():
             yield {"kind": "prep", "theta": rng.uniform(-7, 7), "phi": rng.uniform(-7, 7)}
